@@ -346,7 +346,7 @@ impl<'a> IrEmitter<'a> {
             IrDeclKind::Struct(s) => self.emit_struct(s),
             IrDeclKind::Enum(e) => self.emit_enum(e),
             IrDeclKind::TypeAlias { name, ty } => {
-                let name_ident = format_ident!("{}", name);
+                let name_ident = format_ident!("{}", Self::escape_keyword(name));
                 let ty_tokens = self.emit_type(ty);
                 Ok(quote! {
                     type #name_ident = #ty_tokens;
@@ -362,7 +362,7 @@ impl<'a> IrEmitter<'a> {
                 self.validate_const_emittable(name, ty, value)?;
 
                 let vis = self.emit_visibility(visibility);
-                let name_ident = format_ident!("{}", name);
+                let name_ident = format_ident!("{}", Self::escape_keyword(name));
                 let ty_tokens = self.emit_type(ty);
 
                 // If this is a FrozenList/Set/Dict with literal initializer, emit via FrozenX::new(&[...]).
@@ -513,7 +513,7 @@ impl<'a> IrEmitter<'a> {
     }
 
     fn emit_trait(&self, trait_decl: &super::super::decl::IrTrait) -> Result<TokenStream, EmitError> {
-        let name = format_ident!("{}", &trait_decl.name);
+        let name = format_ident!("{}", Self::escape_keyword(&trait_decl.name));
         let methods: Vec<TokenStream> = trait_decl
             .methods
             .iter()
@@ -573,7 +573,7 @@ impl<'a> IrEmitter<'a> {
     }
 
     fn emit_impl(&self, impl_block: &super::super::decl::IrImpl) -> Result<TokenStream, EmitError> {
-        let target_type = format_ident!("{}", &impl_block.target_type);
+        let target_type = format_ident!("{}", Self::escape_keyword(&impl_block.target_type));
 
         let mut regular_methods = Vec::new();
         let mut trait_impls = Vec::new();
@@ -709,7 +709,7 @@ impl<'a> IrEmitter<'a> {
                     .filter(|m| !matches!(m.name.as_str(), "__eq__" | "__str__" | "__class_name__" | "__fields__"))
                     .map(|m| self.emit_trait_method(m))
                     .collect::<Result<_, _>>()?;
-                let trait_ident = format_ident!("{}", trait_name);
+                let trait_ident = format_ident!("{}", Self::escape_keyword(trait_name));
                 quote! {
                     impl #trait_ident for #target_type {
                         #(#trait_methods)*
@@ -725,7 +725,7 @@ impl<'a> IrEmitter<'a> {
                 quote! {}
             }
         } else if let Some(trait_name) = &impl_block.trait_name {
-            let trait_ident = format_ident!("{}", trait_name);
+            let trait_ident = format_ident!("{}", Self::escape_keyword(trait_name));
             quote! {
                 impl #trait_ident for #target_type {}
             }
@@ -790,7 +790,7 @@ impl<'a> IrEmitter<'a> {
     }
 
     fn emit_function(&self, func: &super::super::decl::IrFunction) -> Result<TokenStream, EmitError> {
-        let name = format_ident!("{}", &func.name);
+        let name = format_ident!("{}", Self::escape_keyword(&func.name));
         let is_main = func.name == conventions::ENTRYPOINT_NAME;
         let mutated_params = self.collect_mutated_params(func);
 
@@ -974,7 +974,7 @@ impl<'a> IrEmitter<'a> {
     }
 
     fn emit_enum(&self, e: &super::super::decl::IrEnum) -> Result<TokenStream, EmitError> {
-        let name = format_ident!("{}", &e.name);
+        let name = format_ident!("{}", Self::escape_keyword(&e.name));
         let vis = self.emit_visibility(&e.visibility);
 
         let variants: Vec<TokenStream> = e
